@@ -88,6 +88,7 @@ fn build_n<'src, E: HErr<'src, MappedSlice<'src>>>(
 /// `NH` lines: `a.nested_in(b)` available as `call 0` inside `a`, `b` and the main grammar (any position, any depth)
 struct HCase {
     id: String,
+    ek: String,
     gap: usize,
     mode: ModeK,
     groups: Vec<(u32, Vec<u32>)>,
@@ -100,9 +101,9 @@ struct HCase {
 fn read_hcase(rest: &str) -> Result<HCase, String> {
     let mut rd = Rd::new(rest);
     let id = rd.tok()?.to_string();
-    let ek = rd.tok()?;
-    if ek != "rich" {
-        return Err(format!("nested cases are Rich only, got {ek}"));
+    let ek = rd.tok()?.to_string();
+    if ek != "rich" && ek != "empty" {
+        return Err(format!("nested cases are Rich or EmptyErr, got {ek}"));
     }
     let gap = rd.nat()? as usize;
     let mode = match rd.tok()? {
@@ -137,14 +138,18 @@ fn read_hcase(rest: &str) -> Result<HCase, String> {
         return Err("expected I".into());
     }
     let inputs = rd.inputs()?;
-    Ok(HCase { id, gap, mode, groups, a, b, main, inputs })
+    Ok(HCase { id, ek, gap, mode, groups, a, b, main, inputs })
 }
 
-fn run_hcase<'src>(c: &HCase, groups: &'src Groups, data: &'src [(Vec<(char, Sp)>, Sp)], w: &mut dyn Write) {
-    type E<'a> = Rich<'a, char, Sp>;
+fn run_hcase<'src, E: HErr<'src, MappedSlice<'src>>>(
+    c: &HCase,
+    groups: &'src Groups,
+    data: &'src [(Vec<(char, Sp)>, Sp)],
+    w: &mut dyn Write,
+) {
     let built = std::panic::catch_unwind(std::panic::AssertUnwindSafe(|| {
-        let mut hole: Rec<'src, MappedSlice<'src>, E<'src>> = chumsky::recursive::Recursive::declare();
-        let cx: Cx<'src, MappedSlice<'src>, E<'src>> = Cx { defs: vec![hole.clone().boxed()], base: 0 };
+        let mut hole: Rec<'src, MappedSlice<'src>, E> = chumsky::recursive::Recursive::declare();
+        let cx: Cx<'src, MappedSlice<'src>, E> = Cx { defs: vec![hole.clone().boxed()], base: 0 };
         let pa = build(&c.a, &cx);
         let pb = build(&c.b, &cx).map(move |v: Val| -> MappedSlice<'src> {
             let t = group_of(&v).expect("harness: nested_in token parser did not yield a token");
@@ -160,7 +165,7 @@ fn run_hcase<'src>(c: &HCase, groups: &'src Groups, data: &'src [(Vec<(char, Sp)
             Ok(p) => {
                 let f: fn(&'src (char, Sp)) -> (&'src char, &'src Sp) = proj_pair;
                 let inp: MappedSlice<'src> = chumsky::input::Input::map(&data[k].0[..], data[k].1, f);
-                run_one::<MappedSlice<'src>, E<'src>>(p, c.mode, inp)
+                run_one::<MappedSlice<'src>, E>(p, c.mode, inp)
             }
             Err(_) => "P harness-build".to_string(),
         };
@@ -254,7 +259,11 @@ pub fn main() {
                         groups.entry(*gid).or_insert_with(|| mapped_tokens(kids, c.gap));
                     }
                     let data: Vec<(Vec<(char, Sp)>, Sp)> = c.inputs.iter().map(|ts| mapped_tokens(ts, c.gap)).collect();
-                    run_hcase(&c, &groups, &data, &mut w);
+                    if c.ek == "empty" {
+                        run_hcase::<chumsky::error::EmptyErr>(&c, &groups, &data, &mut w);
+                    } else {
+                        run_hcase::<Rich<'_, char, Sp>>(&c, &groups, &data, &mut w);
+                    }
                 }
             }
             continue;
